@@ -169,4 +169,151 @@ example : (∃ r, mergeScripts [(["A", "B"], [0]), (["C", "D"], [1]), (["B", "C"
     mergeScripts [(["A", "B"], [0]), ([], [1])] = .error .assertion :=
   ⟨C20_merge_never_asserts _ (by decide), C20_merge_asserts_of_empty _ ⟨([], [1]), by decide, rfl⟩⟩
 
+/-! ### the pairs: nothing lost, nothing duplicated -/
+
+theorem absorb_nonempty (c : SSet) (rest : List SSet) (hc : c ≠ []) : (absorb c rest).1 ≠ [] := by
+  cases c with
+  | nil => exact absurd rfl hc
+  | cons x r =>
+    intro h
+    have := (absorb_cover (x :: r) rest).1 x mem_cons_self
+    rw [h] at this; cases this
+
+theorem mergePass_nonempty (n : Nat) (sets : List SSet) (h : ∀ s ∈ sets, s ≠ []) :
+    ∀ b ∈ (mergePass n sets).1, b ≠ [] := by
+  induction n generalizing sets with
+  | zero => simp [mergePass]
+  | succ n ih =>
+    cases sets with
+    | nil => simp [mergePass]
+    | cons c rest =>
+      intro b hb
+      simp only [mergePass] at hb
+      rcases mem_cons.mp hb with rfl | hb
+      · exact absorb_nonempty c rest (h c mem_cons_self)
+      · exact ih _ (fun s hs => h s (mem_cons_of_mem _ ((absorb_sound c rest).2 s hs))) b hb
+
+theorem mergeLoop_nonempty (n : Nat) (sets : List SSet) (h : ∀ s ∈ sets, s ≠ []) :
+    ∀ b ∈ mergeLoop n sets, b ≠ [] := by
+  induction n generalizing sets with
+  | zero => exact h
+  | succ n ih =>
+    intro b hb
+    simp only [mergeLoop] at hb
+    by_cases hm : (mergePass sets.length sets).2 = true
+    · simp only [hm, if_true] at hb
+      exact ih _ (mergePass_nonempty _ _ h) b hb
+    · have hm' : (mergePass sets.length sets).2 = false := by simpa using hm
+      simp only [hm'] at hb
+      exact mergePass_nonempty _ _ h b hb
+
+theorem mergeSets_nonempty (keys : List SSet) : ∀ b ∈ mergeSets keys, b ≠ [] := by
+  apply mergeLoop_nonempty
+  intro s hs
+  have := (mem_filter.mp hs).2
+  intro h; rw [h] at this; simp at this
+
+theorem sdisjoint_self_false (a : SSet) (h : a ≠ []) : sdisjoint a a = false := by
+  cases a with
+  | nil => exact absurd rfl h
+  | cons x r => simp [sdisjoint]
+
+/-- the merged bucket keys are distinct (so the result dict of `mergeScripts` has one entry per merged set) -/
+theorem mergeSets_nodup (keys : List SSet) : (mergeSets keys).Nodup := by
+  have hd := C20_merge_disjoint keys
+  have hn := mergeSets_nonempty keys
+  refine Pairwise.imp_of_mem ?_ hd
+  intro a b ha _ hab heq
+  subst heq
+  rw [sdisjoint_self_false a (hn a ha)] at hab; cases hab
+
+def pourInto (b : SSet) (ps : List Nat) (acc : List (SSet × List Nat)) : List (SSet × List Nat) :=
+  acc.map (fun e => if e.1 == b then (e.1, e.2 ++ ps) else e)
+
+theorem pourInto_keys (b : SSet) (ps : List Nat) (acc : List (SSet × List Nat)) :
+    (pourInto b ps acc).map (·.1) = acc.map (·.1) := by
+  induction acc with
+  | nil => rfl
+  | cons e r ih =>
+    simp only [pourInto, map_cons] at ih ⊢
+    rw [ih]
+    by_cases h : (e.1 == b) = true <;> simp [h]
+
+theorem pourInto_absent (b : SSet) (ps : List Nat) (acc : List (SSet × List Nat)) (h : b ∉ acc.map (·.1)) :
+    pourInto b ps acc = acc := by
+  induction acc with
+  | nil => rfl
+  | cons e r ih =>
+    simp only [map_cons, mem_cons, not_or] at h
+    have hne : (e.1 == b) = false := by
+      apply beq_false_of_ne; intro heq; exact h.1 heq.symm
+    simp only [pourInto, map_cons, hne] at ih ⊢
+    rw [ih h.2]; simp
+
+theorem pourInto_perm (b : SSet) (ps : List Nat) (acc : List (SSet × List Nat)) (hnd : (acc.map (·.1)).Nodup)
+    (hb : b ∈ acc.map (·.1)) : ((pourInto b ps acc).flatMap (·.2)).Perm (acc.flatMap (·.2) ++ ps) := by
+  induction acc with
+  | nil => simp at hb
+  | cons e r ih =>
+    simp only [map_cons, nodup_cons] at hnd
+    by_cases he : (e.1 == b) = true
+    · have heq : e.1 = b := by simpa using he
+      have hr : pourInto b ps r = r := pourInto_absent b ps r (heq ▸ hnd.1)
+      have : pourInto b ps (e :: r) = (e.1, e.2 ++ ps) :: r := by
+        have hr' := hr
+        simp only [pourInto] at hr' ⊢
+        simp only [map_cons, he, if_true, hr']
+      rw [this]
+      simp only [flatMap_cons, append_assoc]
+      exact Perm.append_left _ perm_append_comm
+    · have he' : (e.1 == b) = false := by simpa using he
+      have hbr : b ∈ r.map (·.1) := by
+        simp only [map_cons, mem_cons] at hb
+        rcases hb with h | h
+        · rw [h] at he'; simp at he'
+        · exact h
+      have : pourInto b ps (e :: r) = e :: pourInto b ps r := by
+        simp only [pourInto, map_cons, he']; simp
+      rw [this]
+      simp only [flatMap_cons, append_assoc]
+      exact Perm.append_left _ (ih hnd.2 hbr)
+
+theorem reassign_perm (sets : List SSet) (hnd : sets.Nodup) (kps acc r : List (SSet × List Nat))
+    (hk : acc.map (·.1) = sets) (h : reassign sets acc kps = .ok r) :
+    r.map (·.1) = sets ∧ (r.flatMap (·.2)).Perm (acc.flatMap (·.2) ++ kps.flatMap (·.2)) := by
+  induction kps generalizing acc with
+  | nil =>
+    simp only [reassign] at h
+    cases h; simp [hk]
+  | cons e rest ih =>
+    obtain ⟨k, ps⟩ := e
+    simp only [reassign] at h
+    cases hf : reassignOne sets k with
+    | none => rw [hf] at h; cases h
+    | some b =>
+      rw [hf] at h
+      have hbm : b ∈ sets := mem_of_find?_eq_some hf
+      have h' : reassign sets (pourInto b ps acc) rest = .ok r := h
+      obtain ⟨h1, h2⟩ := ih (pourInto b ps acc) ((pourInto_keys b ps acc).trans hk) h'
+      refine ⟨h1, h2.trans ?_⟩
+      simp only [flatMap_cons, ← append_assoc]
+      exact Perm.append_right _ (pourInto_perm b ps acc (hk ▸ hnd) (hk ▸ hbm))
+
+/-- **mergeScripts keeps the pairs**: whenever it returns, the result has one entry per merged set, in the order of the
+merged sets, and the pairs of all result buckets are a permutation of the pairs of all input buckets - no pair is lost,
+none duplicated, for every input. -/
+theorem C20_merge_pairs (kps r : List (SSet × List Nat)) (h : mergeScripts kps = .ok r) :
+    r.map (·.1) = mergeSets (kps.map (·.1)) ∧ (r.flatMap (·.2)).Perm (kps.flatMap (·.2)) := by
+  unfold mergeScripts at h
+  have := reassign_perm _ (mergeSets_nodup _) kps _ r (by simp [Function.comp_def]) h
+  refine ⟨this.1, this.2.trans ?_⟩
+  have h0 : (map (fun s => ((s, []) : SSet × List Nat)) (mergeSets (map (·.1) kps))).flatMap (·.2) = [] := by
+    induction (mergeSets (map (·.1) kps)) with
+    | nil => rfl
+    | cons a l ih => simp [flatMap_cons]
+  rw [h0]; simp
+
+example : (mergeScripts [(["A", "B"], [0]), (["C", "D"], [1, 5]), (["B", "C"], [2])]).toOption = some [(["A", "B", "C", "D"], [0, 1, 5, 2])] := by
+  decide
+
 end Ufo2ft.C20
